@@ -184,6 +184,17 @@ def _find_terminal_instruction(snapshot, ctls, start, end, rst_handler, ctl=None
             break
     return address
 
+def _mark_cut_instruction(snapshot, ctls, rst_handler):
+    # If the last instruction in the final code block extends beyond the end
+    # address, mark it as data (it would overlap whatever follows)
+    blocks = _get_blocks(ctls)
+    if blocks and blocks[-1][0] == 'c':
+        b_start, b_end = blocks[-1][1:]
+        for addr, size, *unused in decode(snapshot, b_start, b_end, rst_handler):
+            pass
+        if addr + size > b_end:
+            ctls[addr] = 'b'
+
 def _get_blocks(ctls):
     # Determine the block start and end addresses
     blocks = [[ctls[address], address, None] for address in sorted(ctls)]
@@ -497,5 +508,8 @@ def generate_ctls(snapshot, start, end, code_map, config):
     else:
         rst_handler = None
     if code_map:
-        return _generate_ctls_with_code_map(snapshot, start, end, config, rst_handler, code_map)
-    return _generate_ctls_without_code_map(snapshot, start, end, config, rst_handler)
+        ctls = _generate_ctls_with_code_map(snapshot, start, end, config, rst_handler, code_map)
+    else:
+        ctls = _generate_ctls_without_code_map(snapshot, start, end, config, rst_handler)
+    _mark_cut_instruction(snapshot, ctls, rst_handler)
+    return ctls
